@@ -29,6 +29,7 @@ CONSTANTS Families,    \* which case families Init enumerates
           StyleLevels, \* levels used by the single-key cases of the "style" family
           LevelKeys,   \* keys used by the "levels" family
           NameIds,     \* odd package / interface names (ids; concretised by checks/c19.py)
+          DocLevels,   \* levels used by the single-key cases of the "doc" / "docsyn" families
           SimMax       \* bound on the keys per level in the "random" family (simulation)
 
 (* ------------------------------------------------------------ v2 key set *)
@@ -89,9 +90,9 @@ LevelsOf(sh) == Configurable(sh)
 \*     and merge keys -- the values must arrive where the alias puts them)
 \*  11 bare scalars: strings that look like numbers / booleans / dates written unquoted in the v2 file, booleans
 \*     written yes / no / on / off (YAML 1.1 spellings the typed v2 fields accept)
+\*  12.. documented value forms: style 11 + n is the n-th form of DocForms(k) (see below), the same at every level
 \* Booleans alternate polarity with the style, maps and lists follow the string styles.
 Styles == 1..9
-AllStyles == 0..11
 Q(s) == "\"" \o s \o "\""
 Idx(L) == CHOOSE j \in 1..7 : Order[j] = L
 \* log-level values stay valid zerolog level names (a loader may validate them), distinct per level;
@@ -118,7 +119,70 @@ StrBody(k, L, vi) ==
     [] vi = 9 -> k \o "@" \o L \o "/ \\t"
     [] vi = 10 -> k \o "@any"
     [] vi = 11 -> BareLike[((Idx(L) + (IF k \in Mapped THEN 0 ELSE 3)) % 7) + 1]
-Val(k, L, vi) ==
+(* ------------------------------------------------- documented value forms *)
+\* The v2 settings WITHOUT a v3 counterpart are part of "every valid v2 configuration" too: migrate reads every
+\* one of them (migrate.go:284-416 consults each field of V2Config, migrate.go:433-479, for its deprecation
+\* table) and must neither crash on nor carry over any value a v2 user may have written there.  DocForms(k):
+\* the value shapes the v2 documentation gives for key k (configuration table, "replace-type" and "layouts"
+\* feature pages), plus the degenerate members of each shape class (empty string, empty list, blank-padded,
+\* several entries).  JSON texts; level-independent (these are values people copy from the docs).
+\*
+\* replace-type entries are a parsed micro-syntax in v2:  SRC=DST  with  SRC, DST ::= [alias:]path/to/pkg[.Type]
+\* or a predeclared type, Type optionally followed by a type-parameter selector [T] / [-T].
+RTForms == <<
+  "[\"example.com/w/a/internal/wire.Conn=example.com/w/a/wire.Conn\"]",                 \* pkg.T=pkg.T
+  "[\"example.com/w/a/old.Thing=newthing:example.com/w/a/new.Thing\"]",                 \* aliased import on the right
+  "[\"example.com/w/a/internal=example.com/w/a/pub\"]",                                 \* whole package
+  "[\"database/sql/driver=example.com/w/fakedriver\"]",                                 \* whole standard-library package (no dot left)
+  "[\"example.com/w/a/drv=database/sql/driver\"]",                                      \* ... on the right
+  "[\"io=bufio\"]",                                                                     \* no dot, no slash on either side
+  "[\"example.com/w/ids.ID=string\"]",                                                  \* predeclared type on the right
+  "[\"error=example.com/w/errs.E\"]",                                                   \* predeclared type on the left
+  "[\"time.Duration=int64\"]",                                                          \* single-element path
+  "[\"example.com/w/a.Generic[-T]=example.com/w/a/types.Fixed\"]",                      \* type parameter removed
+  "[\"example.com/w/a.Generic[T]=int\"]",                                               \* type parameter replaced by a predeclared type
+  "[\"example.com/w/a.G[T1]=alias2:example.com/w/b.H[-T2]\"]",                          \* selector on both sides, aliased
+  "[\"gopkg.in/yaml.v3.Node=example.com/w/y/v2.Node\"]",                                \* dots inside the path, major-version suffix
+  "[\"example.com/w/a/internal=pub:example.com/w/a/pub\"]",                             \* aliased whole package
+  "[\" example.com/w/a.T = example.com/w/b.U \"]",                                      \* blanks around the parts
+  "[\"example.com/w/a.T\"]",                                                            \* no '=' (decodable, rejected only at generation time)
+  "[\"=\",\"example.com/w/a.T=\",\"=example.com/w/b.U\",\"a=b=c\",\":=:\",\".=.\"]",    \* empty / degenerate sides
+  "[\"\"]",                                                                             \* the empty string as an entry
+  "[]",                                                                                 \* the empty list
+  "[\"example.com/w/a/internal/wire.Conn=example.com/w/a/wire.Conn\",\"database/sql/driver=example.com/w/fakedriver\",\"example.com/w/ids.ID=string\",\"example.com/w/a.Generic[-T]=example.com/w/a/types.Fixed\",\"\"]" >>   \* several entries
+TemplForms(pre, post) == << Q(pre \o "{{.InterfaceName}}" \o post), Q(pre \o "{{.InterfaceNameSnake}}" \o post),
+                            Q("{{.Mock}}{{.InterfaceName | firstUpper}}" \o post), Q(pre \o "{{ .PackageName }}/{{.InterfaceDirRelative}}" \o post),
+                            Q(""), Q(" ") >>
+DocForms(k) ==
+  CASE k = "replace-type" -> RTForms
+    [] k = "disabled-deprecation-warnings" -> << "[\"issue-845-fix\"]", "[\"issue-845-fix\",\"resolve-type-alias\",\"packages\"]", "[\"\"]", "[]", "[\"not-a-warning\",\" \"]" >>
+    [] k = "filename" -> TemplForms("mock_", ".go") \o << Q("{{.InterfaceName}}_test.go"), Q("sub/dir/x.go") >>
+    [] k = "structname" -> TemplForms("Mock", "") \o << Q("lowerCase") >>
+    [] k = "packageprefix" -> << Q("mock_"), Q("mocks/x."), Q(""), Q("{{.PackageName}}_") >>
+    [] k = "case" -> << Q("camel"), Q("snake"), Q("underscore"), Q("CAMEL"), Q("") >>
+    [] k = "tags" -> << Q("integration"), Q("a,b"), Q("!windows && (linux || darwin)"), Q("") >>
+    [] k = "note" -> << Q("generated, do not edit"), Q("line one\\nline two\\n"), Q("// +build x"), Q("") >>
+    [] k = "name" -> << Q("Requester"), Q("Requester|Sender"), Q(".*"), Q("(?i)^foo$"), Q("") >>
+    [] k = "output" -> << Q("./mocks"), Q("/abs/mocks/"), Q("."), Q("") >>
+    [] k = "srcpkg" -> << Q("github.com/x/y/v2"), Q("io"), Q("."), Q("./..."), Q("") >>
+    [] k \in {"profile", "cpuprofile"} -> << Q("cpu.prof"), Q("/tmp/p/"), Q("") >>
+    [] k \in BoolKeys -> << "true", "false" >>
+    [] OTHER -> << >>
+DocKeys == {k \in Keys \ Mapped : DocForms(k) # << >>}
+\* keys whose documented values are a parsed micro-syntax (entry lists, templates): their single-key cases are
+\* the "docsyn" family, those of enumerations / plain strings / booleans the "doc" family
+SynKeys == {"replace-type", "disabled-deprecation-warnings", "filename", "structname", "packageprefix"}
+ASSUME SynKeys \subseteq DocKeys /\ (Keys \ Mapped) \ DocKeys = {}
+MaxDoc == Len(RTForms)
+ASSUME \A k \in DocKeys : Len(DocForms(k)) <= MaxDoc
+DocStyles == 12..(11 + MaxDoc)
+AllStyles == 0..(11 + MaxDoc)
+\* form n of key k, cyclically (so a tree in doc style n gives every key a documented form)
+DocVal(k, n) == LET f == DocForms(k) IN f[((n - 1) % Len(f)) + 1]
+Val(k, L, vi0) ==
+  \* documented forms exist for the settings without a v3 counterpart; the mapped ones keep their markers
+  IF vi0 >= 12 /\ k \in DocKeys THEN DocVal(k, vi0 - 11) ELSE
+  LET vi == IF vi0 >= 12 THEN 1 ELSE vi0 IN
   IF vi = 0 THEN "null"
   ELSE IF k \in BoolKeys THEN (IF vi = 10 THEN "false" ELSE IF (vi % 2 = 1) = Odd(L) THEN "true" ELSE "false")
   ELSE IF k \in StrKeys THEN (IF k = "log-level" THEN Q(LogName(L, vi)) ELSE Q(StrBody(k, L, vi)))
@@ -224,12 +288,27 @@ InitBad ==    /\ "bad" \in Families /\ fam = "bad" /\ shape = "full" /\ nm = NoN
               /\ sets = [M \in AllLevels |-> {"all", "dir"}]
               /\ vi = 1
               /\ \E n \in {0, 7, 13, 22} : lay = LayRot(n)
+\* every documented value form of every setting WITHOUT a v3 counterpart, at every level; whole trees in which
+\* every key carries its n-th documented form (next to the marker values of the mapped ones) in every shape
+InitDocOne(f, ks) == /\ f \in Families /\ fam = f /\ shape = "full" /\ bad = "none" /\ nm = NoName
+                     /\ \E k \in ks, L \in DocLevels, n \in 1..MaxDoc :
+                           /\ n <= Len(DocForms(k)) /\ vi = 11 + n /\ sets = Only(L, {k})
+                           /\ lay = LayRot(Kn(k) * 7 + Idx(L) * 9 + n * 4)
+InitDocSyn == InitDocOne("docsyn", SynKeys)
+InitDoc ==    InitDocOne("doc", DocKeys \ SynKeys)
+InitDocTree == /\ "doctree" \in Families /\ fam = "doctree" /\ bad = "none" /\ nm = NoName
+               /\ vi \in DocStyles
+               /\ \/ shape = "full" /\ sets = [M \in AllLevels |-> Keys]
+                  \/ shape = "full" /\ sets = [M \in AllLevels |-> DocKeys]
+                  \/ shape \in Shapes \ {"full"} /\ vi <= 14 /\ sets = [M \in AllLevels |-> IF M \in LevelsOf(shape) THEN Keys ELSE {}]
+               /\ lay = LayRot(vi * 3 + Cardinality(Positions(shape)) + Cardinality(sets["top"]))
 \* random subsets of the full key set at every level, random style and layout: drawn by the Choose action under -simulate
 InitRandom == /\ "random" \in Families /\ fam = "random" /\ shape \in {"full", "oneentry", "onepkg", "noentries"} /\ bad = "none"
               /\ nm = NoName /\ sets = NoKeys /\ vi = 1 /\ lay = LayRot(0) /\ wrote = "-"
               /\ pc = "choose" /\ todo = << >> /\ out = << >> /\ res = "run"
 
-Init == InitRandom \/ (Base /\ (InitSingle \/ InitStyle \/ InitAlias \/ InitNull \/ InitPair \/ InitLevels \/ InitShape \/ InitLayout \/ InitNames \/ InitBad))
+Init == InitRandom \/ (Base /\ (InitSingle \/ InitStyle \/ InitAlias \/ InitNull \/ InitPair \/ InitLevels \/ InitShape \/ InitLayout \/ InitNames \/ InitBad
+                                \/ InitDocSyn \/ InitDoc \/ InitDocTree))
 
 (* ------------------------------------------------------------ migrate.go *)
 \* migrateConfig, migrate.go:278-410, line by line: where each v2 field goes.  "-" = not carried over.
@@ -262,7 +341,7 @@ Put(L, m) == [x \in DOMAIN out \cup {L} |-> IF x = L THEN m ELSE out[x]]
 Choose ==
   /\ pc = "choose"
   /\ sets' = [M \in AllLevels |-> IF M \in Configurable(shape) THEN RandomSubset(RandomElement(0..SimMax), Keys) ELSE {}]
-  /\ vi' = RandomElement(Styles \cup {10, 11})
+  /\ vi' = IF RandomElement(1..3) = 1 THEN RandomElement(DocStyles) ELSE RandomElement(Styles \cup {10, 11})
   /\ lay' = LayRot(RandomElement(0..(2 * Len(LaySeq) - 1)))
   /\ pc' = "decode"
   /\ UNCHANGED <<fam, shape, nm, bad, wrote, todo, out, res>>
